@@ -70,6 +70,7 @@ fn run_case(case: &Case, out: &mut Out) {
     "locks" => suites::locks_suite::run(case, out),
     "composite" => suites::composite_suite::run(case, out),
     "behaviorrace" => suites::brace_suite::run(case, out),
+    "inject" => suites::inject_suite::run(case, out),
     s => panic!("unknown suite {}", s),
   }
 }
